@@ -477,19 +477,19 @@ theorem annulus_components (w : Wcs Sky α) (c : Sky) (m : Meta) (v : Visual α)
     (∀ r1 r2 : α, ∃ ci co : Circle α,
       (SkyR.circle c r1 m v).toPixel w = .circle ci.center ci.radius m v ∧
       (SkyR.circle c r2 m v).toPixel w = .circle co.center co.radius m v ∧
-      ((SkyR.circleAnnulus c r1 r2 m v).toPixel w).toPReg = .circleAnnulus ci.center ci.radius co.radius m.inc ∧
+      ((SkyR.circleAnnulus c r1 r2 m v).toPixel w).toPReg = some (.circleAnnulus ci.center ci.radius co.radius m.inc) ∧
       ci.center = co.center) ∧
     (∀ (w1 w2 h1 h2 : α) (a : Dir α), ∃ ei eo : Ellipse α,
       (SkyR.ellipse c w1 h1 a m v).toPixel w = .ellipse ei.center ei.width ei.height ei.dir m v ∧
       (SkyR.ellipse c w2 h2 a m v).toPixel w = .ellipse eo.center eo.width eo.height eo.dir m v ∧
       ((SkyR.ellipseAnnulus c w1 w2 h1 h2 a m v).toPixel w).toPReg
-        = .ellipseAnnulus ei.center ei.width ei.height eo.width eo.height ei.dir m.inc ∧
+        = some (.ellipseAnnulus ei.center ei.width ei.height eo.width eo.height ei.dir m.inc) ∧
       ei.center = eo.center ∧ ei.dir = eo.dir) ∧
     (∀ (w1 w2 h1 h2 : α) (a : Dir α), ∃ ri ro : Rect α,
       (SkyR.rect c w1 h1 a m v).toPixel w = .rect ri.center ri.width ri.height ri.dir m v ∧
       (SkyR.rect c w2 h2 a m v).toPixel w = .rect ro.center ro.width ro.height ro.dir m v ∧
       ((SkyR.rectAnnulus c w1 w2 h1 h2 a m v).toPixel w).toPReg
-        = .rectAnnulus ri.center ri.width ri.height ro.width ro.height ri.dir m.inc ∧
+        = some (.rectAnnulus ri.center ri.width ri.height ro.width ro.height ri.dir m.inc) ∧
       ri.center = ro.center ∧ ri.dir = ro.dir) := by
   refine ⟨fun r1 r2 => ⟨⟨w.toPix c, r1 / (w.loc c).scale⟩, ⟨w.toPix c, r2 / (w.loc c).scale⟩, ?_⟩,
     fun w1 w2 h1 h2 a => ⟨⟨w.toPix c, w1 / (w.loc c).scale, h1 / (w.loc c).scale, a.add (northMinus90 (w.loc c).north)⟩,
